@@ -291,6 +291,15 @@ func genC02(g *Gen) {
 	g.mulGrid(0.34)
 	g.mulWideSubnormalGrid(0.2)
 	g.wordMulQuoGrid(0.1)
+	// quotients whose inexactness hides eight or more zeros below the guard digit
+	g.gridRun(4*2*3, 0.03, func(i int) {
+		for try := 0; try < 20; try++ {
+			if a, b, ok := g.ratFarSticky([]int{0, 4, 5, 9}[i%4]); ok {
+				g.allModes("Quo", mk((i/4)%2 == 1, a, g.r.Intn(41)-20), mk(g.r.Intn(2) == 0, b, g.r.Intn(41)-20))
+				return
+			}
+		}
+	})
 	g.quoGrid(0.1)
 	g.pairGrid(0.2, func(x, y d128.Decimal) { g.someModes([]string{"Mul", "Quo"}[g.r.Intn(2)], x, y, 2) })
 	for !g.w.full() {
